@@ -165,7 +165,9 @@ def cvalue_(v):
         return "(VList [%s])" % ";".join(cvalue_(x) for x in v["v"])
     if t == "map":
         return "(VMap [%s])" % ";".join("(%s,%s)" % (cbytes(bytes.fromhex(k)), cvalue_(x)) for k, x in v["v"])
-    raise Unrepresentable(t)       # "arr" (named array slots), "nil", "other"
+    if t == "arr":
+        return "(VArr [%s])" % ";".join("(%s,%s)" % (cbytes(bytes.fromhex(k or "")), cvalue_(x)) for k, x in v["v"])
+    raise Unrepresentable(t)       # "nil", "other"
 
 
 def vcode(v):
@@ -282,6 +284,13 @@ def run(ck, binary, run_impl, replay):
         scases.append({"k": "ser", "v": {"t": "arr", "v": [["2d33", {"t": "str", "v": "61"}], ["3037", {"t": "null"}], [None, {"t": "list", "v": []}]]}, "_origin": "named"})
         for f in FLOATS:
             scases.append({"k": "ser", "v": {"t": "float", "v": str(fbits(f))}, "_origin": "float"})
+        # ArrayValue slots with names: canonical ints, non-canonical int spellings, strings, unnamed, duplicates
+        names = [None, "30", "31", "35", "2d33", "3037", "2b35", "2d30", "6b", "", "39323233333732303336383534373735383037",
+                 "39323233333732303336383534373735383038", "31", "20"]
+        for i in range(120 if quick else 3000):
+            n = rng.choice([1, 2, 3, 4])
+            scases.append({"k": "ser", "v": {"t": "arr", "v": [[rng.choice(names), gen_value(rng, rng.choice([0, 1]))] for _ in range(n)]},
+                           "_origin": "named"})
         for i in range(700 if quick else 15000):
             v = gen_value(rng, rng.choice([0, 1, 2, 3, 4]), floats=(i % 3 == 0))
             t = py_ser(v)
